@@ -51,23 +51,34 @@ SPEC = dict(
              "regenerated code (c14_src_wire) and the framing lemma of the regenerated serialize_field for every content (c14_src_string_lengths). "
              "BlockIdExt.__init__ / to_bytes / from_bytes / __eq__ / __hash__ of tl/block.py are regenerated the same way and proved equal to the "
              "model's toBytes / fromBytes / pyEq / pyHash for all ids, so the byte round trip and eq => same hash hold of the regenerated code "
-             "(c14_src_blockid).",
+             "(c14_src_blockid). "
+             "The PARSER TlSchemas.deserialize is regenerated too (one Lean definition per loop body: the call with the id lookup, the field "
+             "loop with the flags test through bin(), the value of a field - fixed-size reads, bytes/string framing, the auto-deserialise "
+             "branch with its `while j < byte_len` loop and the untouchables, vectors with the guard of fix 110bf4a and the one-field pseudo "
+             "schema for base types, bare / boxed references): Lean proves for ALL byte strings (well formed or not), both modes, all depth "
+             "budgets, all loop budgets from len(data)+2 on and EVERY schema table with distinct field names (checked for the bundled table, "
+             "c14_table_args) that it equals the hand model's deserialize (c14_src_parser: same value, same consumed count, same decision to "
+             "raise), so both round-trip theorems hold of regenerated deserialize after regenerated serialize (c14_src_roundtrip_plain, "
+             "c14_src_roundtrip_auto), the framing reader of the regenerated code returns exactly the content and skips exactly the frame for "
+             "every length below 2^24 (c14_src_string_lengths_reader), and no budget is ever the reason for a failure: the result with depth "
+             "(len/4+1)(R+2) and len+2 loop iterations is the result with any larger budgets (c19_src_tl_total).",
         level_note='Trusted: Lean kernel (propext, Classical.choice, Quot.sound), Spec/Tl.lean as the TL format, the table translator '
                    '(harness/translate/tl_table.py), the hand model Model/Tl.lean (tied by sampled correspondence, not by proof), Python '
-                   'for the serialiser the hand model is now PROVED equal to the regenerated methods (trusted instead: the translator pydyn.py/pyobj.py, '
+                   'for the serialiser and the parser the hand model is now PROVED equal to the regenerated methods (trusted instead: the translator pydyn.py/pyobj.py, '
                    'PyTl.lean as the meaning of the Python operations, and the declared interface of tlengine.py: schema objects = table records, '
                    'type-string tests = their classification, fuel = recursion depth; validated against the library on ~4000 calls per change); '
-                   'the parser (deserialize) model remains tied by sampled correspondence + the framing / guard lines. '
+                   'the parser (deserialize) is tied the same way (declared in addition: bin() of the mode/flags value is read for ints only, the untouchables are the '
+                   'table\'s, the pseudo-schema call for a vector element of a base type does not count as a recursion level; ~5400 parses validated per change); '
                    'str.encode/decode = strict UTF-8, bytes.fromhex/hex inverse, tuple hash. Fuel = recursion depth: theorems hold for every '
                    'sufficiently large depth budget; normalize carries the same budget (its re-parses are the model parser on the content) and '
                    'is shown to be budget-independent from tlFuel on for tables without bare cycles; Python\'s own recursion limit is not '
                    'modelled. The vector rule of the spec asks for count <= encoded length; shown to follow from the element types for every bundled vector field.',
-        technique='Lean 4 proof (hand model generic in a schema table regenerated from source; serialiser methods regenerated from source and proved '
+        technique='Lean 4 proof (hand model generic in a schema table regenerated from source; serialiser and parser methods regenerated from source and proved '
                   'equal to the hand model for all inputs) + differential correspondence with the library + source-regenerated framing arithmetic',
     ),
     translators=[('tl schemas->Generated/TlTable.lean', TT.regenerate),
                  ('tl/generator.py bytes framing + vector guard->Generated/TlFraming.lean', arith2.regenerator('TlFraming')),
-                 ('tl/generator.py serialiser methods + tl/block.py BlockIdExt->Generated/TlEngine.lean', TE.regenerate)],
+                 ('tl/generator.py serialiser + parser methods + tl/block.py BlockIdExt->Generated/TlEngine.lean', TE.regenerate)],
     design_ref='DESIGN.md §6 C14',
     rule='for every covered constructor >= 3 type-directed random canonical values (boundary-biased ints, strings/bytes at lengths '
          '{0..4,252..257,65535 (thorough 2^24-1)} plus a sweep of every length 0..300, nested/polymorphic objects to depth 3, vectors of '
@@ -77,7 +88,7 @@ SPEC = dict(
          'foreign tails, empty, nesting to depth 3, with an independently computed expected result; strings starting with a registered '
          'id must raise), damaged inputs (model vs library only) and BlockId/BlockIdExt helpers; distinct = distinct (constructor, value); '
          'non-trivial = the constructor has at least one field',
-    lean_targets=['TonVerif.Proofs.SrcTlEngine'],
+    lean_targets=['TonVerif.Proofs.SrcTlEngine', 'TonVerif.Proofs.SrcTlParser'],
     trusted_base=['harness/translate/pydyn.py + pyobj.py + tlengine.py (methods of the TL engine -> Lean; declared interface) and lean/TonVerif/PyTl.lean (meaning of the dynamic-value / type-string / to_bytes operations)',
                   'harness/translate/tl_table.py (table generator, replays the type tests of serialize_field/deserialize)',
                   'Spec/Tl.lean is the TL binary format', 'Model/Tl.lean mirrors generator.py/block.py by hand',
